@@ -109,7 +109,7 @@ def run(ctx):
                       for f in sorted(glob.glob(os.path.join(ROOT, "corpus", "C06", "*.txt")))]
             run_jobs(corpus, 1)
             run_jobs(jobs_for(ctx), workers)
-            unlisted_sigs = [s for s in by_sig if s != F4_SIG]
+            unlisted_sigs = [s for s in by_sig if s not in (F4_SIG, "crafted-record " + F4_SIG)]
             if (ctx.proof_errors or mismatches or ctx.corr_broken) and not unlisted_sigs:
                 # something no longer checks and no (new) failing input yet: search harder
                 run_jobs(harder_jobs(ctx), workers)
